@@ -227,6 +227,16 @@ def ctor (s : DState) (op : String) (args : List Nat) (_raw : List String) : Opt
       | some w => some ((Lossy.new w).map (.lossy · eps), "ok")
       | none => some (none, "")
     | _ => none
+  | "heap.props", k :: _ =>
+    match _raw with
+    | [_, eps, delta] => match parseFloat eps, parseFloat delta with
+      | some eps, some delta => match Sizing.cmsParams eps delta with
+        | some (w, d) => match Cms.new w d (2^64 - 1) with
+          | some c => some ((CmsHeap.new k c).map .heap, s!"ok {w} {d}")
+          | none => some (none, "")
+        | none => some (none, "")
+      | _, _ => none
+    | _ => none
   | "heap.new", [k, w, d] =>
     match Cms.new w d (2^64 - 1) with
     | some c => some ((CmsHeap.new k c).map .heap, "ok")
